@@ -242,6 +242,16 @@ def run(prop, tier="quick", seed=0, replay=None, only=None):
         nat[cd.name] = native_runs(cd, interp, seed * 7919 + zlib.crc32(cd.name.encode()) % 1000, k)
 
     known = load_known(prop)
+    # every recorded finding with a pinned failing input is re-run on each check, so its line is printed whenever it
+    # still reproduces (and a note when it no longer does); other violations of the same property are unaffected
+    for e in known:
+        if e.get("status") == "known" and e.get("pinned_inputs") and e.get("contract") in nat:
+            cd = [c for c in contracts if c.name == e["contract"]][0]
+            r = native_runs(cd, None, 0, 1, inputs=e["pinned_inputs"])
+            nat[cd.name]["failures"].extend(r["failures"])
+            nat[cd.name]["errors"].extend(r["errors"])
+            if not any(f["obligation"] == e["obligation"] for f in r["failures"]):
+                print(f"NOTE: recorded finding no longer reproduces on its pinned input: {e['obligation']}")
     os.makedirs(os.path.join(VERIF, "replays"), exist_ok=True)
     violations = []
     known_hits = []
